@@ -88,6 +88,42 @@ pub fn make_scenario(rng : &mut Rng, prop : &str, thorough : bool) -> Scenario
         }
     }
 
+    // C05 quantifies over every graph the tool ACCEPTS: offer it graphs that it must reject (a rule that lists another of
+    // its own targets as a source, a two-rule cycle, a target claimed twice); if it accepts one, termination is judged
+    if prop == "C05" && rng.chance(1, 6)
+    {
+        let mut next = run.world.rules.clone();
+        let multi : Vec<usize> = (0..next.len()).filter(|i| next[*i].outs.len() >= 2).collect();
+        let kind = rng.below(3);
+        if kind == 0 && multi.len() > 0
+        {
+            let i = multi[rng.below(multi.len())];
+            let k = rng.below(next[i].outs.len());
+            let own = next[i].outs[k].path.clone();
+            next[i].sources.push(own);
+            run.world.note_op(format!("InvalidEdit(rule #{} lists its own target #{} as a source)", i, k));
+        }
+        else if kind == 1 && next.len() >= 2
+        {
+            let a = rng.below(next.len());
+            let b = (a + 1 + rng.below(next.len() - 1)) % next.len();
+            let ta = next[a].outs[rng.below(next[a].outs.len())].path.clone();
+            let tb = next[b].outs[rng.below(next[b].outs.len())].path.clone();
+            if !next[a].sources.contains(&tb) { next[a].sources.push(tb); }
+            if !next[b].sources.contains(&ta) { next[b].sources.push(ta); }
+            run.world.note_op(format!("InvalidEdit(rules #{} and #{} depend on each other)", a, b));
+        }
+        else if next.len() >= 2
+        {
+            let a = rng.below(next.len());
+            let b = (a + 1 + rng.below(next.len() - 1)) % next.len();
+            let stolen = next[a].outs[0].clone();
+            next[b].outs.push(stolen);
+            run.world.note_op(format!("InvalidEdit(rule #{} also claims a target of rule #{})", b, a));
+        }
+        run.world.set_rules(next);
+    }
+
     // failure injection
     let mut failures = 0;
     let want_failures = match prop { "C04" => rng.range(1, 3), "C05" => rng.below(3), _ => if rng.chance(1, 5) { 1 } else { 0 } };
@@ -97,9 +133,15 @@ pub fn make_scenario(rng : &mut Rng, prop : &str, thorough : bool) -> Scenario
     {
         if leaves_now.len() == 0 { break; }
         let l = leaves_now[rng.below(leaves_now.len())].clone();
-        let op = match rng.below(4)
+        let op = match rng.below(5)
         {
             0 => HOp::PoisonFail(l),
+            4 =>
+            {
+                // one script line of a two-line command fails, the other succeeds
+                if !run.world.rules.iter().any(|r| r.split && r.outs.len() >= 2 && r.sources.contains(&l)) { continue; }
+                HOp::PoisonFailStep(l, rng.below(2))
+            },
             1 =>
             {
                 let users : Vec<usize> = (0..run.world.rules.len()).filter(|i| run.world.rules[*i].sources.contains(&l)).collect();
